@@ -120,6 +120,47 @@ def _run_game(rec: LinkRecorder, cfg: Dict[str, Any], steps: int, label: str, pi
     return rec.take(stimulus={"scenario": label, "steps": steps, "pings": list(pings)})
 
 
+def _run_two_names(rec: LinkRecorder, cap_bytes: float, ticks: int = 4):
+    """ONE radio channel under TWO frequency names (AirSpace.register_frequency; AirSpaceFrequency.frequency_hz: "If two
+    names are mapped to the same frequency, they will share a bandwidth"): two pairs of access points, one pair per
+    name, all four on 2.4 GHz, both pairs pinging in every tick over a channel of the order of one exchange."""
+    from primaite.simulator.network.airspace import AirSpaceFrequency, FREQ_WIFI_2_4
+    from primaite.simulator.network.container import Network
+    from primaite.simulator.network.hardware.nodes.network.router import ACLAction
+    from primaite.simulator.network.hardware.nodes.network.wireless_router import WirelessRouter
+
+    guest_name = "WIFI_2_4_GUEST"
+    net = Network()
+    air = net.airspace
+    if guest_name not in AirSpaceFrequency._registry:
+        air.register_frequency(guest_name, FREQ_WIFI_2_4.frequency_hz, FREQ_WIFI_2_4.data_rate_bps)
+    guest = AirSpaceFrequency._registry[guest_name]
+    routers = []
+    for i, (ip, freq) in enumerate([("192.168.1.1", FREQ_WIFI_2_4), ("192.168.1.2", FREQ_WIFI_2_4), ("192.168.3.1", guest), ("192.168.3.2", guest)], 1):
+        r = WirelessRouter.from_config(config={"type": "wireless-router", "hostname": f"wr_{i}", "start_up_duration": 0}, airspace=air)
+        r.power_on()
+        net.add_node(r)
+        r.acl.add_rule(action=ACLAction.PERMIT, position=1)
+        r.configure_wireless_access_point(ip, "255.255.255.0", frequency=freq)
+        routers.append(r)
+    r1, _, r3, _ = routers
+    # warm the ARP caches on the default (large) capacity, then narrow the channel under both of its names
+    net.pre_timestep(0)
+    r1.ping("192.168.1.2")
+    r3.ping("192.168.3.2")
+    net.apply_timestep(0)
+    rec.take()  # (the warm-up is not part of the trace)
+    cap = cap_bytes / 1048576.0 * 8.0
+    air.set_frequency_max_capacity_mbps({"WIFI_2_4": cap, guest_name: cap})
+    for t in range(1, ticks + 1):
+        net.pre_timestep(t)
+        r1.ping("192.168.1.2", pings=2)
+        r3.ping("192.168.3.2", pings=2)
+        r1.ping("192.168.1.2", pings=1)
+        net.apply_timestep(t)
+    return rec.take(stimulus={"scenario": f"wireless_two_names_one_channel_{cap_bytes}", "ticks": ticks})
+
+
 def sig_fn(tr, event, stuck):
     st = (stuck or {}).get("st") or {}
     sig = {"wireless": bool(tr["cfg"].get("wireless"))}
@@ -205,6 +246,15 @@ def main(tier: str, seed: int) -> int:
                 net.get_node_by_hostname("pc_b").ping("192.168.0.2", pings=2)
             traces += rec.take(stimulus={"scenario": f"wireless_toggle_{order}_{capb}", "steps": 3})
             chk.add_case(f"wireless_toggle_{order}_{capb}")
+    # one channel under two frequency names
+    n_two = 0
+    for capb in (icmp * 2.5, icmp * 4 + 2, icmp * 7):
+        trs = _run_two_names(rec, capb)
+        n_two += sum(1 for tr in trs for e in tr["ev"] if e["ev"] == "Begin")
+        traces += trs
+        chk.add_case(f"wireless_two_names_one_channel_{capb}")
+    if n_two == 0:
+        raise tlc.TLCError("vacuous: no frame was sent on the channel with two names")
     if tier == "thorough":
         traces += _run_env(rec, scenarios.shipped("uc7_config.yaml"), 60, rng, "uc7")
         traces += _run_game(rec, scenarios.shipped("multi_lan_internet_network_example.yaml"), 10, "multi_lan")
